@@ -35,6 +35,15 @@ CHECKS = {
             'Class-level default objects are restored from pristine copies before each case; mk_copy() relatives are '
             'not treated as independent (C03 covers copy isolation).',
             'DESIGN.md section 2 C12'),
+    'C02': ('hypothesis generated MDIB programs (operation histories as data) interpreted against a ProviderMdib, with '
+            'a before/after snapshot oracle and harness-kept per-handle version high-water marks',
+            'Generated histories over all transaction kinds and both transaction interfaces, including several related '
+            'operations inside one descriptor transaction and delete/re-create cycles; after every operation the full '
+            'canonical snapshot is compared with the previous one: MdibVersion step, per-object version monotonicity, '
+            'version increase on content change, re-creation above the last version, referential invariants by scan, '
+            'and no change outside the declared footprint of the operation.',
+            'ProviderMdib is driven directly (no transport, no role providers); values come from the C05 generators.',
+            'DESIGN.md section 2 C02'),
 }
 
 NOT_YET = {}
